@@ -5,6 +5,7 @@ package gen
 import (
 	"math"
 	"math/rand/v2"
+	"sync"
 
 	"verifharness/refcodec"
 	"verifharness/refdict"
@@ -17,6 +18,7 @@ type Dict struct {
 	Set   *refdict.Set
 	Ix    *refdict.Index
 	// per application: AVP definitions visible from it (own + parents + base)
+	vmu     sync.Mutex // the harness draws messages from several goroutines
 	visible map[uint32][]*refdict.AVPDef
 	Cmds    []refdict.CmdDef // commands with a non-empty rule list in both directions... see CmdOK
 }
@@ -54,6 +56,8 @@ func (d *Dict) TypeFunc(app uint32) refcodec.TypeFunc {
 // Visible lists the definitions an application resolves, one per (code,vendor)
 // — the one the resolver would return.
 func (d *Dict) Visible(app uint32) []*refdict.AVPDef {
+	d.vmu.Lock()
+	defer d.vmu.Unlock()
 	if v, ok := d.visible[app]; ok {
 		return v
 	}
